@@ -30,7 +30,7 @@ MCEv(t) ==
     [] d = 7 -> << E(A(0), <<2>>), E(A(0), <<2>>) >>
     [] OTHER -> <<>>
 
-F(addrs, keys) == [addrs |-> addrs, keys |-> keys, huge |-> FALSE]
+F(addrs, keys) == [addrs |-> addrs, keys |-> keys, huge |-> 0]
 KeyMenu == { <<>>, <<{1}>>, <<{2}>>, <<{1, 2}>>, <<{}, {1}>>, <<{}, {2}>>, <<{1}, {2}>>, <<{2}, {}>>, <<{}>>,
              <<{}, {}>>, <<{1, 2}, {1, 2}>> }
 (* 9 = an address that never emits *)
